@@ -20,6 +20,11 @@ use serde_json::{json, Value};
 use super::templates::{Extra, RawInd};
 use crate::runproblems::{Instrumented, RealProblem, TspProblem};
 
+/// equal up to rounding: the statements speak about values, not about the order of floating-point operations
+fn near(a: f64, b: f64, rel: f64) -> bool {
+    a.to_bits() == b.to_bits() || (a - b).abs() <= rel * a.abs().max(b.abs()).max(f64::MIN_POSITIVE)
+}
+
 fn obj_of<P: Instrumented>(i: &Individual<P>) -> Value {
     match i.get_objective() {
         Some(o) => json!({"$obj": o.value().to_bits().to_string()}),
@@ -79,7 +84,7 @@ fn pso_extra(params: &Value, n: u32) -> Extra<RealProblem> {
                         && vs.iter().zip(&p.vs).all(|(v, vo)| {
                             v.iter().zip(vo).all(|(v, vo)| {
                                 let want = (p.w * vo + 0.0 + 0.0).clamp(-v_max, v_max);
-                                v.to_bits() == want.to_bits() || (*v == 0.0 && want == 0.0)
+                                near(*v, want, 1e-12) || (*v == 0.0 && want == 0.0)
                             })
                         })) as i64;
                 }
@@ -94,7 +99,7 @@ fn pso_extra(params: &Value, n: u32) -> Extra<RealProblem> {
             let iters = state.try_get_value::<Iterations>().ok();
             if let (Some(w), Some(it)) = (w, iters) {
                 let pr = it as f64 / n as f64;
-                wexact = (w.to_bits() == ((end - start) * pr + start).to_bits()) as i64;
+                wexact = near(w, (end - start) * pr + start, 1e-12) as i64;
                 let _ = progress;
             }
         }
@@ -103,7 +108,7 @@ fn pso_extra(params: &Value, n: u32) -> Extra<RealProblem> {
             // (k - 1) / n), the start weight during pass 0
             if let (Some(w), Ok(it)) = (w, state.try_get_value::<Iterations>()) {
                 let sched = if it == 0 { start } else { (end - start) * ((it - 1) as f64 / n as f64) + start };
-                wsched = (w.to_bits() == sched.to_bits()) as i64;
+                wsched = near(w, sched, 1e-12) as i64;
             }
         }
         let pbr: Vec<Value> = pb.as_ref().map(|b| b.iter().map(obj_of).collect()).unwrap_or_default();
@@ -264,8 +269,8 @@ fn sa_extra<P: Instrumented>(params: &Value) -> Extra<P> {
             for _ in 0..it {
                 e *= alpha;
             }
-            t_iters = (e.to_bits() == t.to_bits()) as i64;
-            t_next = ((e * alpha).to_bits() == t.to_bits()) as i64;
+            t_iters = near(e, t, 1e-9) as i64;
+            t_next = near(e * alpha, t, 1e-9) as i64;
         }
         (Vec::new(), json!({"t_iters": t_iters, "t_next": t_next}))
     })
